@@ -191,6 +191,24 @@ func runC16(c *Ctx, w *World, r *Report) {
 							vl := fa.Lin(st.Val)
 							nr, nhh := 0, 0
 							for atom, coef := range vl.T {
+								// a running total carried round the loop instead of reading result[i] back: it starts at 1
+								// (the value of result[0]) and its next value is the very value stored
+								if tp, isPhi := fa.AtomValue(atom).(*ssa.Phi); isPhi && coef == 1 && isLoopHeaderPhi(tp) {
+									okT := true
+									for k, e := range tp.Edges {
+										if tp.Block().Dominates(tp.Block().Preds[k]) {
+											if stripConv(e) != stripConv(st.Val) {
+												okT = false
+											}
+										} else if c, isC := constInt64(stripConv(e)); !isC || c != 1 {
+											okT = false
+										}
+									}
+									if okT {
+										nr++
+										continue
+									}
+								}
 								cont, idx, ok := asElemLoad(fa.AtomValue(atom))
 								if !ok || coef != 1 || !fa.Lin(idx).Eq(il.Add(linConst(-1))) {
 									bad = "result[i+1] is not result[i] + histogram[i]"
